@@ -302,7 +302,7 @@ LID_RT = [V('langid', r'::vspec::lemma_(first_sep_prefix|dash_join_front|split_h
                       r'lid_roundtrip|strict_sorted_same_set|lid_expected_unique|lid_parse_ser|lid_ser_injective)$')]
 LID_INV = [V('langid', r'::vspec::lemma_(fold_bytes|fold_classes|var_run_fold|lid_case_invariant|first_sep_fold|subtags_fold|first_sep_none_before|lid_variant_order_invariant)$')]
 LOC_RT = [V('locale', r'::vspec::lemma_(dash_join_one|kv_ser_join|kv_toks_\w+|last_key_at|kv_fold_\w+|keys_ok_from_wf|ext_\w+|u_first_key\w*|tkey_is_stopper|weak_sorted_unique|'
-                       r'x_expected_unique|u_expected_unique|t_expected_unique|dash_lid_ser|e_ser_join|lid_toks_alnum|e_toks_alnum|locale_roundtrip_views)$'),
+                       r'x_expected_unique|u_expected_unique|t_expected_unique|dash_lid_ser|e_ser_join|lid_toks_alnum|e_toks_alnum|locale_roundtrip_views|insert_sorted|keys_listable)$'),
           V('locale', r'::(lemma_locale_roundtrip|lemma_extmap_roundtrip)$'), V('locale', r'::TransformExtensionList::lemma_view_ok$'),
           V('langid', r'::vspec::lemma_lid_roundtrip_suffix$')]
 RT_K = [K('langid_leaf', h) for h in LEAF_LID + ['leaf_language_default_is_und', 'leaf_subtag_eq_str']]
@@ -314,9 +314,8 @@ PROPS.update({
         'bounded': [B_RT],
         'standin': ['lid', 'locale'],
         'trusted': ['the link from views to values (equal views of wf values are == values) is rustc derive semantics + axiom_text_injective',
-                    'Locale / ExtensionsMap: lemma_locale_roundtrip / lemma_extmap_roundtrip carry the hypothesis keys_listable (the keyword / tfield maps can list their keys in '
-                    'sorted order - true of every finite map, obtained from BTreeMap iteration in the Display proofs, not proved for arbitrary maps here); bounded:rt re-checks '
-                    'the composition on the real library'],
+                    'Locale / ExtensionsMap: lemma_locale_roundtrip / lemma_extmap_roundtrip are stated over the views (identifier, -u-, -t-, -x-); bounded:rt additionally '
+                    're-checks the composition on the real library'],
         'explanation': 'Locale level: lemma_locale_roundtrip (for every well-formed Locale l, the grammar of C03 accepts subtags_of(locale_ser(l)) and ANY value it prescribes - '
                        'in particular the result of Locale::from_bytes, by its verified contract - has l\'s identifier, -u-, -t- and -x- views), lemma_extmap_roundtrip likewise for '
                        'ExtensionsMap::from_bytes on the extension string; '
